@@ -764,6 +764,53 @@ theorem weekday_repr_spec (w : Int) (n : Option Int) :
   simp [hn, hw]
   intro v hv; simp [hv]
 
+/-! ## `repr` and the `weeks` property, translated -/
+
+theorem rel_step (l : List String) (name : String) (v : Int) :
+    (if v ≠ 0 then l ++ [name ++ "=" ++ RDPy.fmtPlusG v] else l) = l ++ RDH.relPart name v := by
+  unfold RDH.relPart; split <;> simp
+
+theorem rel_first (name : String) (v : Int) :
+    (if v ≠ 0 then [name ++ "=" ++ RDPy.fmtPlusG v] else []) = RDH.relPart name v := rfl
+
+theorem abs_step (l : List String) (name : String) (v : Option Int) :
+    (if v ≠ none then l ++ [name ++ "=" ++ RDPy.reprOptInt v] else l) = l ++ RDH.absPart name v := by
+  cases v <;> simp [RDH.absPart, RDPy.reprOptInt]
+
+/-- **gen_repr_weeks_eq_model.** The translated `weeks` getter and setter and `__repr__` ARE the history model's `weeksOf`,
+    `setWeeks` and `reprOf` (over the translated `weekday.__repr__`). -/
+theorem gen_repr_weeks_eq_model (d : RD) (v : Int) :
+    Gen.weeks d = .ok (RDH.weeksOf d) ∧ Gen.setWeeks d v = .ok (RDH.setWeeks d v) ∧
+    Gen.repr d = RDH.reprOf Gen.wdRepr d := by
+  refine ⟨rfl, rfl, ?_⟩
+  unfold Gen.repr RDH.reprOf
+  simp only [rel_step, abs_step, List.nil_append]
+  cases hw : d.weekday with
+  | none => simp only [Except.bind, List.append_assoc, rel_first]
+  | some w =>
+    simp only [Except.bind]
+    cases Gen.wdRepr w with
+    | error e => rfl
+    | ok s => simp only [rel_step, abs_step, List.append_assoc, List.cons_append, List.nil_append, rel_first]
+
+/-- **repr_spec.** What `repr` shows: exactly the non-zero relative fields and the absolute fields that are set (a delta with no
+    field set prints `relativedelta()`), so two deltas with the same repr and an in-range weekday… the converse is NOT claimed:
+    `+g` keeps six significant digits (`years=1234567` prints `+1.23457e+06`), `weekday=MO` and `weekday=MO(0)` print alike. -/
+theorem repr_spec (d : RD) :
+    (RDM.bool d = false → Gen.repr d = .ok "relativedelta()") ∧
+    (d.weekday = none → ∃ s, Gen.repr d = .ok s) := by
+  rw [(gen_repr_weeks_eq_model d 0).2.2]
+  constructor
+  · intro h
+    have hb := (bool_iff_no_field d).1 h
+    obtain ⟨h1, h2, h3, h4, h5, h6, h7, h8, h9, h10, h11, h12, h13, h14, h15, h16⟩ := hb
+    unfold RDH.reprOf
+    simp [h1, h2, h3, h4, h5, h6, h7, h8, h9, h10, h11, h12, h13, h14, h15, h16, RDH.relPart, RDH.absPart]
+  · intro h
+    unfold RDH.reprOf
+    rw [h]
+    exact ⟨_, rfl⟩
+
 -- non-vacuity / sanity
 example : Gen.fix { seconds := -3661, microseconds := 2500000 } =
     { hours := -1, minutes := 0, seconds := -59, microseconds := 500000, hasTime := 1 } := by decide
@@ -792,4 +839,8 @@ example : Gen.wdRepr (0, some (-2)) = .ok "MO(-2)" ∧ Gen.wdRepr (6, some 1) = 
 example : Gen.wdCall Gen.wdInit (0, some 1) (some 1) = .ok ((0, some 1), true) ∧ Gen.wdCall Gen.wdInit (0, none) (some 1) = .ok ((0, some 1), false) ∧
     Gen.wdCall Gen.wdInitRR (0, none) (some 0) = .error .ValueError := by
   decide +kernel
+example : Gen.repr { years := -7620747, days := 3, month := some 3, weekday := some (2, some 5), hasTime := 0 } =
+    .ok "relativedelta(years=-7.62075e+06, days=+3, month=3, weekday=WE(+5))" := by decide +kernel
+example : RDPy.fmtPlusG 1000000 = "+1e+06" ∧ RDPy.fmtPlusG (-999999) = "-999999" ∧ RDPy.fmtPlusG 1234565 = "+1.23456e+06" ∧
+    RDPy.fmtPlusG 9999995 = "+1e+07" := by decide +kernel
 end C16
